@@ -790,6 +790,8 @@ func checkExecLoop(c *Ctx) {
 func runC12(c *Ctx) {
 	c.Rule("R12e", "the hashes of the applied statements are owned by Execute: Revision.PartialHashes, Applied and Total are stored only in Executor.Execute (and the revision constructor): no other function clears or rewrites them behind its back", 2)
 	checkFieldOwners(c, "R12e", pMigrate, "Revision", []string{"PartialHashes", "Applied", "Total"}, map[string]bool{"migrate.(Executor).Execute": true})
+	c.Rule("R12h", ruleTextBothIndexesGuarded, 2)
+	checkBothIndexesGuarded(c, "R12h")
 	c.Rule("R12g", ruleTextOptionalStmt, 1)
 	checkOptionalStmt(c, "R12g")
 	c.Rule("R12f", ruleTextSetRevisionAll, 2)
@@ -820,6 +822,19 @@ func runC12(c *Ctx) {
 		if i := strings.Index(o.Key, "|"); i > 0 && execCallees[o.Key[:i]] {
 			guarded = true
 		}
+	}
+	// a chain `i >= len(a) || i >= len(b) || a[i] != b[i]` is decided per indexed slice by R12h
+	if !guarded {
+		okH, nH := true, 0
+		for _, o := range c.obls {
+			if o.Rule == "R12h" {
+				nH++
+				if !o.OK {
+					okH = false
+				}
+			}
+		}
+		guarded = nH >= 2 && okH
 	}
 	c.Check("R12a", "Execute|comparison index is guarded by len", token.NoPos, guarded, "no len-guard protects the index into the recomputed sums in Execute: a file re-hashed with fewer statements than were applied would index out of range")
 
